@@ -132,6 +132,10 @@ func NormComment(s string) string {
 	lines := strings.Split(strings.ReplaceAll(s, "\r", ""), "\n")
 	for i := range lines {
 		lines[i] = strings.TrimRight(lines[i], " \t")
+		if i > 0 {
+			// continuation lines of a general comment are re-indented by the printers (as gofmt does)
+			lines[i] = strings.TrimLeft(lines[i], " \t")
+		}
 	}
 	return strings.Join(lines, "\n")
 }
